@@ -2243,38 +2243,21 @@ func (e *CoreExtension) functionParent(args ...interface{}) (interface{}, error)
 		blockName := ctx.currentBlock.name
 
 		// Debug logging
-		LogDebug("parent() call for block '%s'", blockName)
-		LogDebug("inParentCall=%v, currentBlock=%p", ctx.inParentCall, ctx.currentBlock)
-		LogDebug("Blocks in context: %v", getMapKeys(ctx.blocks))
-		LogDebug("Parent blocks in context: %v", getMapKeys(ctx.parentBlocks))
+		LogDebug("parent() call for block '%s' at level %d", blockName, ctx.blockLevel)
 
-		// Check for parent content in the parentBlocks map
-		parentContent, ok := ctx.parentBlocks[blockName]
-		if !ok || len(parentContent) == 0 {
+		// The next definition up the extends chain is the parent content
+		chain := ctx.blockChain[blockName]
+		level := ctx.blockLevel + 1
+		if level >= len(chain) {
 			return "", fmt.Errorf("no parent block content found for block '%s'", blockName)
 		}
 
-		// For the simplest possible solution, render the parent content directly
-		// This is the most direct way to avoid recursion issues
+		// Render it with the same variables; the position in the chain moves
+		// up so that a parent() call inside the parent content continues from
+		// there instead of recursing
 		var result bytes.Buffer
-
-		// Create a clean context without parent() function to prevent recursion
-		cleanCtx := NewRenderContext(ctx.env, ctx.context, ctx.engine)
-		defer cleanCtx.Release()
-
-		// Copy all blocks and variables
-		for name, content := range ctx.blocks {
-			cleanCtx.blocks[name] = content
-		}
-
-		// The key here is to NOT set currentBlock - this breaks the recursion chain
-		cleanCtx.currentBlock = nil
-
-		// Render each node with the clean context
-		for _, node := range parentContent {
-			if err := node.Render(&result, cleanCtx); err != nil {
-				return nil, err
-			}
+		if err := renderBlockDefinition(&result, ctx, chain, level); err != nil {
+			return nil, err
 		}
 
 		return result.String(), nil
